@@ -14,6 +14,9 @@ MODIFIER_STACKS = [
     "early late early late afternoon", "very late very late very late evening", "früh früh früh morgens", "late early evening", "very early late night",
     "spät spät abends", "early very late noon", "late late first", "early early last", "sehr spät sehr früh mittags", "late very early forenoon",
 ]
+POD_EDGE = ["12 at night", "12 uhr nachts", "tonight at 12", "12:30 in the afternoon", "12 abends", "0 uhr nachts", "12:45 late evening", "nachmittags 12:15",
+            "12 in the evening", "12:00 pm at night", "24:00", "12 o'clock tonight", "tomorrow 12 at night", "am 5. um 12 uhr nachts", "12-1 at night",
+            "11:59 pm tonight", "12 noon", "mittags 12", "12 uhr mittags", "heute nacht 12 uhr"]
 TRIVIAL = ["", " ", "   ", "#foo", "#foo #bar", "  #x  ", "#", "# #", "#1", "#foo-bar_baz", "gargelbabel", "hello world", "#tag only words here",
            "\t", "\n", ",;", "()", "-", "--", ".", "...", "#-", "a", "0", "00", "000", "0000", "00000"]
 INERT = ["zzz", "qqq", "lorem", "ipsum", "beers", "burgers", "xylophone", "buy", "gift", "dentist", "pizza"]
